@@ -23,6 +23,7 @@ from ..model import AnalysisError, unparse, walk_no_nested
 DECIDED = [
     "TAB-9 attribute alternations of the six parser regexes == _rdf_map keys of the matching format (Property minus value, handled separately)",
     "TAB-10 every odml:/rdf: term of the query templates is produced by the exporter",
+    "PAIR-2 (C10) a Section is exported as odml:Section unless sub-classing is switched on: the queries select Sections by that type",
     "KEY-1 the q_dict keys Doc/Sec/Prop agree across parsers, query builder, possible_q_dict_keys and the fuzzy finder",
     "STATE-1 parsers and creators keep their dictionaries per instance and reset them per parse",
     "DFS-1 subset generation: recursion on i + 1 with path + [attrs[i]], duplicates decided on the attribute name, longest first, empty results omitted",
@@ -175,6 +176,11 @@ def run(prog, rep):
     # the containment patterns of the queries rely on the links the exporter writes for every child
     from .c10 import link_every_iteration
     link_every_iteration(prog, rep, "TAB-10")
+
+    from ..report import import_verdicts
+    import_verdicts(prog, rep, "C10", ("PAIR-2",), "PAIR-2",
+                    "every query with a Sec part contains `?s rdf:type odml:Section`: the exporter must type Sections that way whenever "
+                    "rdf_subclassing is off")
 
     # ----------------------------------------------------------------- KEY-1
     rep.rule("KEY-1", "possible_q_dict_keys == ['Doc', 'Sec', 'Prop']; _prepare_query reads exactly these keys; the fuzzy finder "
